@@ -188,6 +188,10 @@ func c09BufObject(v ssa.Value, depth int) ssa.Value {
 				}
 			}
 		}
+		// a buffer received as a parameter: an object of its own (what a hand-back helper is judged on)
+		if isBufferPtr(x.Type()) && x.Parent().Parent() == nil {
+			return x
+		}
 	case *ssa.UnOp:
 		if x.Op != token.MUL {
 			return nil
@@ -315,6 +319,50 @@ type c09Bufs struct {
 	tls   map[*ssa.Function]bool // functions of the codec package (function literals included)
 	codec map[*ssa.Function]bool // … reachable from the entry points
 	confd map[[2]any]int         // callee parameter confined? 0 unknown, 1 busy, 2 yes, 3 no
+	hb    map[[2]any]int         // hand-back helper? 0 unknown, 1 busy, 2 yes, 3 no
+	hbPut map[ssa.Instruction]bool
+}
+
+// handBack: g does nothing with its parameter i (a *bytes.Buffer) but reset it and hand it back to a
+// pool — judged from the worst state the buffer can be in, so that calling (or deferring) g is a
+// hand-back of an empty buffer whatever happened before.
+func (a *c09Bufs) handBack(g *ssa.Function, i int) bool {
+	k := [2]any{g, i}
+	switch a.hb[k] {
+	case 2:
+		return true
+	case 1, 3:
+		return false
+	}
+	a.hb[k] = 1
+	ok := false
+	if g != nil && len(g.Blocks) > 0 && g.Parent() == nil && i < len(g.Params) && isBufferPtr(g.Params[i].Type()) && a.tls[g] {
+		s := &c09Scratch{obj: g.Params[i], fn: g, events: map[*ssa.Function][]bufEvent{}}
+		a.collect(s, g)
+		ok = len(s.puts) > 0
+		for _, ev := range s.events[g] {
+			switch ev.kind {
+			case "reset", "put", "neutral":
+			default:
+				ok = false
+			}
+		}
+		if ok {
+			viol, _ := a.flow(s, g, bufState{set: true, content: bufStale}, bufStale)
+			ok = len(viol) == 0
+		}
+		if ok {
+			for _, p := range s.puts {
+				a.hbPut[p] = true
+			}
+		}
+	}
+	if ok {
+		a.hb[k] = 2
+	} else {
+		a.hb[k] = 3
+	}
+	return ok
 }
 
 func c09TLSFuncs(r *Run) map[*ssa.Function]bool {
@@ -430,6 +478,9 @@ func (a *c09Bufs) classify(in ssa.Instruction, obj ssa.Value) bufEvent {
 			return bufEvent{in, "deferput", name}
 		}
 		return bufEvent{in, "put", name}
+	case len(pos) == 1 && ci.Common().StaticCallee() != nil && !ci.Common().IsInvoke() && a.handBack(ci.Common().StaticCallee(), pos[0]):
+		// a helper that resets and hands back whatever it is given
+		return bufEvent{in, "handback", name}
 	case isDefer:
 		if lit := c09DeferredLiteral(in.(*ssa.Defer)); lit != nil && c09DeferSiteOf(lit) == in.(*ssa.Defer) {
 			return bufEvent{in, "deferfn", FuncName(lit)}
@@ -585,7 +636,7 @@ func (a *c09Bufs) flow(s *c09Scratch, fn *ssa.Function, entry bufState, taken in
 		if !st.set {
 			return st
 		}
-		if st.gone && ev.kind != "deferfn" && ev.kind != "deferput" {
+		if _, deferred := i.(*ssa.Defer); st.gone && ev.kind != "deferfn" && ev.kind != "deferput" && !(ev.kind == "handback" && deferred) {
 			add("after-put", fmt.Sprintf("%s at %s uses the buffer after it was handed back to the pool (another call may own it by then)", ev.kind, r.Where(i)))
 		}
 		switch ev.kind {
@@ -614,6 +665,10 @@ func (a *c09Bufs) flow(s *c09Scratch, fn *ssa.Function, entry bufState, taken in
 			}
 		case "escape":
 			add("escape", fmt.Sprintf("%s at %s", ev.what, r.Where(i)))
+		case "handback":
+			if _, deferred := i.(*ssa.Defer); !deferred {
+				st.content, st.gone, st.lost = bufEmpty, true, false
+			}
 		case "put":
 			if st.content != bufEmpty {
 				add("put-nonempty", fmt.Sprintf("the buffer handed back at %s is %s (no Reset after the last write on some path to it)", r.Where(i), bufContentName[st.content]))
@@ -665,6 +720,9 @@ func (a *c09Bufs) analyse(s *c09Scratch, taken int) []bufViolation {
 	viol, exits := a.flow(s, s.fn, bufState{}, start)
 	nDeferred := 0
 	for _, ev := range s.events[s.fn] {
+		if _, deferred := ev.in.(*ssa.Defer); deferred && ev.kind == "handback" {
+			nDeferred++ // judged from the worst state where the helper is defined
+		}
 		switch ev.kind {
 		case "deferput", "deferfn":
 			nDeferred++
@@ -853,13 +911,18 @@ func c09PoolNew(r *Run, g *ssa.Global) string {
 			args := CallArgs(x)
 			okArg := false
 			if CalleeOf(x) == "bytes.NewBuffer" && len(args) == 1 {
+				isZero := func(v ssa.Value) bool {
+					c, isC := v.(*ssa.Const)
+					return isC && c.Value != nil && c.Value.Kind() == constant.Int && constant.Sign(c.Value) == 0
+				}
 				switch y := args[0].(type) {
 				case *ssa.Const:
 					okArg = y.Value == nil
-				case *ssa.MakeSlice:
-					if c, isC := y.Len.(*ssa.Const); isC && c.Value != nil && constant.Sign(c.Value) == 0 {
-						okArg = true
-					}
+				case *ssa.MakeSlice: // make([]byte, 0, n)
+					okArg = isZero(y.Len)
+				case *ssa.Slice: // the same with a constant n: new([n]byte)[:0]
+					_, fresh := y.X.(*ssa.Alloc)
+					okArg = fresh && y.High != nil && isZero(y.High) && (y.Low == nil || isZero(y.Low))
 				}
 			}
 			if !okArg {
@@ -875,7 +938,7 @@ func c09PoolNew(r *Run, g *ssa.Global) string {
 // ---- the rule ------------------------------------------------------------------------------------
 
 func c09R12(r *Run, mf *c09fn) {
-	a := &c09Bufs{r: r, tls: c09TLSFuncs(r), confd: map[[2]any]int{}}
+	a := &c09Bufs{r: r, tls: c09TLSFuncs(r), confd: map[[2]any]int{}, hb: map[[2]any]int{}, hbPut: map[ssa.Instruction]bool{}}
 	a.codecReach()
 	r.Assume("sync.Pool hands an object to one taker at a time and Put'ing it ends the taker's use (documented contract); bytes.Buffer: Len/Bytes/String/Cap/Grow do not change the contents, Reset and Truncate(0) empty it")
 	keyOf := func(s *c09Scratch, what string) string {
@@ -952,6 +1015,9 @@ func c09R12(r *Run, mf *c09fn) {
 						undecided++
 						r.Fail("scratch["+short(FuncName(fn))+"]:origin", r.Where(in), "undecided: the buffer "+r.D.D(arg)+" handed to "+CalleeOf(ci)+" as its output is neither a bytes.Buffer variable of this function nor taken from a sync.Pool")
 						continue
+					}
+					if _, isParam := obj.(*ssa.Parameter); isParam {
+						continue // the caller's own output again, read through the variable that holds it
 					}
 					if oi, isInstr := obj.(ssa.Instruction); isInstr && oi.Parent() != fn {
 						undecided++
@@ -1035,7 +1101,7 @@ func c09R12(r *Run, mf *c09fn) {
 				case ssa.CallInstruction:
 					n := CalleeOf(x)
 					if c09PoolOf(x) == g && (n == "(*sync.Pool).Get" || n == "(*sync.Pool).Put") {
-						if n == "(*sync.Pool).Put" && covered[in] == nil {
+						if n == "(*sync.Pool).Put" && covered[in] == nil && !a.hbPut[in] {
 							pi.strayPut = append(pi.strayPut, in)
 						}
 						if n == "(*sync.Pool).Get" {
@@ -1164,6 +1230,18 @@ func c09R12(r *Run, mf *c09fn) {
 		}
 	}
 	// (5) deferred calls of the codec do nothing but hand scratch objects back
+	isHandBackOfScratch := func(in ssa.Instruction) bool {
+		for _, s := range order {
+			for _, evs := range s.events {
+				for _, ev := range evs {
+					if ev.in == in && ev.kind == "handback" {
+						return true
+					}
+				}
+			}
+		}
+		return false
+	}
 	nDef := 0
 	for _, fn := range fns {
 		if !a.codec[fn] {
@@ -1179,6 +1257,7 @@ func c09R12(r *Run, mf *c09fn) {
 			why := ""
 			switch {
 			case CalleeOf(d) == "(*sync.Pool).Put" && covered[in] != nil:
+			case isHandBackOfScratch(in):
 			default:
 				cl := c09DeferredLiteral(d)
 				if cl == nil || c09DeferSiteOf(cl) != d {
@@ -1463,6 +1542,15 @@ func (f *c09Influence) branch(ifi *ssa.If) {
 		for _, in := range b.Instrs {
 			if c09EffectFree(in) {
 				continue
+			}
+			if st, ok := in.(*ssa.Store); ok {
+				// a store into a field of the field info made on one side only: the field carries the
+				// decision from here on — every read of it is followed (a hint field)
+				if fa, isF := st.Addr.(*ssa.FieldAddr); isF && isFieldInfoPtr(fa.X.Type()) {
+					stt := fa.X.Type().Underlying().(*types.Pointer).Elem().Underlying().(*types.Struct)
+					f.fields[stt.Field(fa.Field).Name()] = true
+					continue
+				}
 			}
 			if worst == nil || rank(in) > rank(worst) {
 				worst = in
